@@ -129,3 +129,17 @@ Lemma fact_analyzers_guarded :
     ["accumulation/analyzer.go:Analyzer"; "assertion/affiliation/analyzer.go:Analyzer";
      "assertion/function/functioncontracts/analyzer.go:Analyzer"]%string = true.
 Proof. vm_compute. reflexivity. Qed.
+
+(* loops over the package's files: every one of them first consults IsFileInScope, except lookups by file name,
+   the experimental struct-init-v2 collector, the grouping key (which filters inside its condition) and the nolint
+   reader *)
+Definition file_loop_exempt : list string :=
+  ["assertion/function/assertiontree/util.go:lookupAstFromFile:files1";
+   "assertion/function/assertiontree/util.go:lookupAstFromFilename:files1";
+   "assertion/function/structfieldeffects/collector.go:computeBoundaryFieldEffects:files1";
+   "diagnostic/conflict.go:groupConflicts:files1";
+   "diagnostic/nolint.go:run:files1"]%string.
+
+Lemma file_loops_guarded :
+  forallb (fun a : string * bool => snd a || existsb (String.eqb (fst a)) file_loop_exempt) file_loops_gen = true.
+Proof. vm_compute. reflexivity. Qed.
